@@ -52,12 +52,12 @@ complete, and the call is for a due request of `computeMissingIndexesForCreation
 refs -/
 theorem taskOrigin_create (s : Sys) (jo : JobObj) (rj : Job) (c : Call) (ho : TaskCallOrigin s jo rj c)
     (hv : c.verb = "create") :
-    c.res = "pods" ∧ canCreateTask rj = true ∧ (refreshedSummary s rj (tasks0 s rj)).complete = false ∧
+    c.res = "pods" ∧ canCreateTask rj = true ∧ (refreshedSummary s rj (tasks0 s jo rj)).complete = false ∧
       ∃ reqs, computeMissingIndexesForCreation s.d rj (rj.indexes s.d) = some reqs ∧
         ∃ r ∈ reqs, c.name = taskName jo.name r.index.hash r.retryIndex ∧ reqDueNow s.clock r := by
   cases ho with
   | create h =>
-    obtain ⟨l, e, _, _, hall, _⟩ := syncCreateTasks_ext s jo rj (tasks0 s rj)
+    obtain ⟨l, e, _, _, hall, _⟩ := syncCreateTasks_ext s jo rj (tasks0 s jo rj)
     rw [e.newCalls] at h
     obtain ⟨_, hr, _, hcan, hcomp, hreq⟩ := hall c h
     exact ⟨hr, hcan, hcomp, hreq⟩
@@ -79,7 +79,7 @@ theorem taskOrigin_verb (s : Sys) (jo : JobObj) (rj : Job) (c : Call) (ho : Task
     c.res = "pods" ∧ (c.verb = "create" ∨ c.verb = "delete") := by
   cases ho with
   | create h =>
-    obtain ⟨l, e, _, _, hall, _⟩ := syncCreateTasks_ext s jo rj (tasks0 s rj)
+    obtain ⟨l, e, _, _, hall, _⟩ := syncCreateTasks_ext s jo rj (tasks0 s jo rj)
     rw [e.newCalls] at h
     exact ⟨(hall c h).2.1, Or.inl (hall c h).1⟩
   | pending s1 rj1 tasks1 s' rj' l _ _ _ _ h =>
@@ -99,11 +99,11 @@ theorem taskOrigin_verb (s : Sys) (jo : JobObj) (rj : Job) (c : Call) (ho : Task
 creation step, justified by the pending timeout, the kill condition, or the force-delete gate -/
 theorem taskOrigin_delete (s : Sys) (jo : JobObj) (rj : Job) (c : Call) (ho : TaskCallOrigin s jo rj c)
     (hv : c.verb = "delete") :
-    c.res = "pods" ∧ ∃ s1 rj1 tasks1, syncCreateTasks s jo rj (tasks0 s rj) = (s1, some (rj1, tasks1)) ∧
+    c.res = "pods" ∧ ∃ s1 rj1 tasks1, syncCreateTasks s jo rj (tasks0 s jo rj) = (s1, some (rj1, tasks1)) ∧
       SpecLe rj rj1 ∧ ∃ t ∈ tasks1, t.name = c.name ∧ DeleteReason s rj rj1 c t := by
   cases ho with
   | create h =>
-    obtain ⟨l, e, _, _, hall, _⟩ := syncCreateTasks_ext s jo rj (tasks0 s rj)
+    obtain ⟨l, e, _, _, hall, _⟩ := syncCreateTasks_ext s jo rj (tasks0 s jo rj)
     rw [e.newCalls] at h
     rw [(hall c h).1] at hv; simp at hv
   | pending s1 rj1 tasks1 s' rj' l hcr hext hle hss h =>
